@@ -354,7 +354,10 @@ func (fx *Fx) doAppend(st *State, args []Val, ins ssa.Instruction, pos token.Pos
 	lo := st.NewLocal(false, "append")
 	L := LocalObj(lo.ID)
 	ncap := Sym(freshName("appcap"), B64)
-	fx.assume(st, And(BVOp("bvsle", newLen, ncap), BVOp("bvule", ncap, BVConst(1<<48, 64))))
+	fx.assume(st, And(BVOp("bvsle", newLen, ncap), BVOp("bvule", ncap, BVConst(1<<48, 64)),
+		// gc runtime (runtime.growslice/nextslicecap): a reallocating append at least doubles a capacity below 256
+		Implies(BVOp("bvult", s.Cap(), BVConst(256, 64)), BVOp("bvule", BVOp("bvmul", s.Cap(), BVConst(2, 64)), ncap))))
+	fx.Trusted["runtime.growslice: a reallocating append at least doubles capacities below 256 elements"] = true
 	sCells := BVOp("bvmul", s.Len(), BVConstI(stride, 64))
 	nCells := BVOp("bvmul", n, BVConstI(stride, 64))
 	for _, k := range elemKinds(et) {
